@@ -115,6 +115,7 @@ class ToThreadRun:
     def fn(self, st):
         cid = st["cid"]
         st["started"] = True
+        st["start_it"] = self.loop.iterations
         st["thread_index"] = baton.S.me().index
         self.running += 1
         self.h.rec("fn_begin", cid)
@@ -234,6 +235,13 @@ class ToThreadRun:
                 st["cancelled_seen"] = True
                 st["running_at_cancel"] = st.get("started") and not st.get("finished")
                 self.h.rec("cancel", st["cid"])
+                lim = self.limiter
+                if (not st.get("started") and st["shape"] != "shield_inner" and lim.borrowed_tokens >= lim.total_tokens
+                        and loop.iterations - st["call_it"] >= 2 and lim.statistics().tasks_waiting > 0):
+                    # the call is queued for a limiter token (saturated limiter, past run_sync's first checkpoint):
+                    # waiting for a token is an ordinary cancellable wait
+                    st["queued_cancel_it"] = loop.iterations
+                    self.faults["cancel_while_queued_for_token"] += 1
                 target.cancel()
                 if st["running_at_cancel"]:
                     self.faults["cancel_while_fn_runs"] += 1
@@ -245,6 +253,7 @@ class ToThreadRun:
                     if spec["cancel_after"] is not None:
                         loop.call_later(spec["cancel_after"], do_cancel)
                     self.h.rec("call", cid, spec["abandon"], shape)
+                    st["call_it"] = loop.iterations
                     try:
                         r = await to_thread.run_sync(self.fn, st, limiter=self.limiter if self.limiter_explicit else None,
                                                      abandon_on_cancel=spec["abandon"])
@@ -283,6 +292,18 @@ class ToThreadRun:
         self.h.rec("result", cid, outcome[0])
         kind, val = outcome
         lat = None
+        if "queued_cancel_it" in st:
+            q = st["queued_cancel_it"]
+            if kind == "cancelled" and not st.get("started"):
+                if self.loop.iterations - q > RELEASE_LAT:
+                    self.v("queued_cancel", f"call {cid}: cancelled while queued for a limiter token, but run_sync raised only "
+                                            f"{self.loop.iterations - q} loop cycles later")
+                else:
+                    self.bump("cancelled_while_queued_for_token")
+            elif st.get("started") and st.get("start_it", 0) - q > RELEASE_LAT:
+                self.v("queued_cancel", f"call {cid}: the caller's scope was cancelled while the call was queued for a limiter "
+                                        f"token; it stayed queued and its function was started {st['start_it'] - q} loop cycles "
+                                        f"later instead of the call being interrupted")
         if kind == "cancelled":
             if not (st.get("cancelled_seen")):
                 self.v("spurious_cancel", f"call {cid}: run_sync raised a cancellation but its scope was never cancelled")
